@@ -108,6 +108,8 @@ def run_dsop(w, s):
     elif what == "take_axis":
         ind, indexing = s["ind"], s["indexing"]
         mkw = {"mode": s["mode"]} if "mode" in s else {}
+        if mkw and len(m.dims[dim]["labels"]) == 0:
+            raise Skip("numpy.take(mode='wrap') never returns on an empty axis")
         real = lambda: ds.take_axis(ind, axis=axis, indexing=indexing, **mkw)
         for k in keys:
             per_var[k] = (lambda a, k=k: a.take_axis(ind, axis=dim, indexing=indexing, **mkw) if has(k) else a)
